@@ -1,6 +1,7 @@
 import VlsModel.Model.Tracker
 import VlsModel.Props.C13
 import VlsModel.Gen.FnTrackerC13
+import VlsModel.Gen.FnTrackerWatch
 import VlsModel.Lemmas.FnGen
 /-
 C13 — the deciding core of the chain tracker proved equal to the function bodies that `translate/rs2lean.py`
@@ -548,5 +549,244 @@ example :
       (fun r => (r.1.height, r.1.headers.length)) = some (4, 0) := by
   rw [C13_fn_do_remove_block _ (by intro f; simp) _ _ _ (by decide) (by decide) (by decide)]
   decide
+
+/-! ### round 10 (b6): `set_allow_deep_reorgs`, `abort_streamed_block`, `tip_time`, the default `on_streamed_block_abort`
+(targets `translate/fn_targets/TrackerC13.b6.json`, merged into the area `TrackerC13`) -/
+
+/-- `ChainTracker::set_allow_deep_reorgs` sets the flag and nothing else -/
+theorem C13_fn_set_allow_deep_reorgs (t : Tracker) (b : Bool) :
+    (toGen t).set_allow_deep_reorgs b = toGen { t with allowDeep := b } := rfl
+
+/-- **`ChainTracker::abort_streamed_block`** (the second half of the `add_block` / `remove_block` wrappers, and the entry a
+    front end calls when it gives up on a stream): the tracker's decode state is dropped, the listeners are told to drop
+    theirs (the external: the loop's effect on the map; the monitors' `BlockDecodeState` is the model's `ldec`), and
+    headers, tip, height, network, trusted oracles stay.  With the listeners' own state behind the listener this is the
+    model's `{ decoding := none, ldec := false }`. -/
+theorem C13_fn_abort_streamed_block (t : Tracker) :
+    ChainTracker.abort_streamed_block (fun ls => ls) (toGen t) = toGen { t with decoding := none, ldec := false } := rfl
+
+/-- the model's wrapper `abortIfStreamed` is the generated `abort_streamed_block` applied to the tracker `do_add_block` /
+    `do_remove_block` left behind, exactly when that call failed with a stream in progress -/
+theorem C13_fn_abort_if_streamed (t : Tracker) (r : Tracker × Out) (k : ErrKind) (hr : r.2 = .err k)
+    (hs : t.decoding.isSome) :
+    toGen (abortIfStreamed t r).1 = ChainTracker.abort_streamed_block (fun ls => ls) (toGen r.1) ∧
+    (abortIfStreamed t r).2 = r.2 := by
+  unfold abortIfStreamed
+  rw [hr]
+  simp only [hs, if_true]
+  constructor <;> first | rfl | trivial
+
+/-- whatever the listeners do on abort: no header, tip, height, network or oracle set changes, the stream is forgotten -/
+theorem C13_fn_abort_streamed_block_frame {VF PK BD BH CT V TM FH Key L : Type}
+    (f : List (Key × (L × ListenSlot)) → List (Key × (L × ListenSlot)))
+    (t : Gen.FnTrackerC13.ChainTracker VF PK BD BH CT V TM FH Key L) :
+    (t.abort_streamed_block f).decode_state = none ∧ (t.abort_streamed_block f).headers = t.headers ∧
+    (t.abort_streamed_block f).tip = t.tip ∧ (t.abort_streamed_block f).height = t.height ∧
+    (t.abort_streamed_block f).trusted_oracle_pubkeys = t.trusted_oracle_pubkeys ∧
+    (t.abort_streamed_block f).listeners = f t.listeners := ⟨rfl, rfl, rfl, rfl, rfl, rfl⟩
+
+/-- **`ChainTracker::tip_time`** reads `self.headers[0]`, the first header *behind* the tip (`do_add_block` pushes the old
+    tip to the front of `headers` and stores the new block in `tip`): it is the timestamp of the tip's parent, and `0`
+    while the window is empty (a tracker fresh from genesis / a checkpoint, or after a restart that kept no window) —
+    not "the header timestamp of the current chain tip" its doc comment promises.  Never ahead of the tip's own time
+    by the median-time rules, so a clock derived from it only lags.  Recorded in `notes/C13-C15.md`. -/
+theorem C13_fn_tip_time {D : Type} (f : Nat → D) (t : Tracker) :
+    (toGen t).tip_time f = .ok (f (match t.headers with | [] => 0 | h :: _ => h.hdr.time)) := by
+  unfold ChainTracker.tip_time
+  cases hh : t.headers with
+  | nil => simp [toGen, hh]
+  | cons h tl => simp [toGen, hh, Rs.index, toGenHs, toGenHdr]
+
+/-- the tip's own time does not enter -/
+theorem C13_fn_tip_time_ignores_tip {D : Type} (f : Nat → D) (t : Tracker) (tip' : Headers) :
+    (toGen { t with tip := tip' }).tip_time f = (toGen t).tip_time f := by
+  rw [C13_fn_tip_time, C13_fn_tip_time]
+
+/-- the default `ChainListener::on_streamed_block_abort` does nothing (a listener without decode state) -/
+theorem C13_fn_on_streamed_block_abort_default {S : Type} (x : S) :
+    Gen.FnTrackerC13.ChainListener.on_streamed_block_abort x = () := rfl
+
+open VlsModel.Props.C13 in
+/-- non-vacuity: on the example tracker with a stream in progress the abort clears it; `tip_time` of a tracker whose
+    window holds one header with time 77 is 77 whatever the tip says -/
+example : (ChainTracker.abort_streamed_block (fun ls => ls) (toGen { exTracker with decoding := some 5 })).decode_state = none ∧
+    (toGen { exTracker with headers := [⟨⟨9, 8, 1, 77, true⟩, 2⟩] }).tip_time (fun n => n) = .ok 77 := by
+  refine ⟨rfl, ?_⟩
+  rw [C13_fn_tip_time]
+
+/-! ### which watch set reaches the validator (clause "proof verifies for all watched outpoints") -/
+
+section WatchSet
+variable {VF PK BD BH CT V TM FH Key L Tx' Blk Tg Txid OP Vd : Type} [DecidableEq BH] [DecidableEq Tg] [DecidableEq CT]
+  (xh : Gen.FnTrackerC13.BlockHeader BH CT V TM → BH) (xt : Gen.FnTrackerC13.BlockHeader BH CT V TM → Tg)
+  (xp : Gen.FnTrackerC13.BlockHeader BH CT V TM → Tg → Option BH) (xm : Gen.FnTrackerC13.Network → Tg)
+  (xmk : VF → Gen.FnTrackerC13.Network → PK → Vd) (xb : FH → List Nat)
+  (xv : Vd → TxoProof Tx' Blk → Nat → Gen.FnTrackerC13.BlockHeader BH CT V TM → Option BH → FH → List OP → List PK → Option Bool)
+  (xd : Nat) (xr : Tg → Tg → Gen.FnTrackerC13.Network → Rs.M Unit)
+  (t : Gen.FnTrackerC13.ChainTracker VF PK BD BH CT V TM FH Key L) (height : Nat) (ebh : Option BH)
+  (prev cur : Gen.FnTrackerC13.BlockHeader BH CT V TM × FH) (proof : TxoProof Tx' Blk)
+
+/-- **Adding a block, `validate_block` hands the validator the *forward* watches** (`get_all_forward_watches`): whatever
+    `get_all_reverse_watches` returns does not enter the outcome, for every instance of the library functions.  (The externals
+    are passed by name: the generated parameter order follows the order of first use in the source.) -/
+theorem C13_fn_validate_block_add_uses_forward (rev1 rev2 fwd : List Txid × List OP) :
+    ChainTracker.validate_block (ext_BlockHeader_block_hash := xh) (ext_BlockHeader_target := xt)
+      (ext_BlockHeader_validate_pow := xp) (ext_max_target := xm) (ext_self_get_all_reverse_watches := rev1)
+      (ext_self_get_all_forward_watches := fwd) (ext_validator_factory_make_validator := xmk)
+      (ext_FilterHeader_to_byte_array := xb) (ext_Validator_validate_block := xv) (ext_diffchange_interval := xd)
+      (ext_validate_retarget := xr) t height ebh prev cur proof false =
+    ChainTracker.validate_block (ext_BlockHeader_block_hash := xh) (ext_BlockHeader_target := xt)
+      (ext_BlockHeader_validate_pow := xp) (ext_max_target := xm) (ext_self_get_all_reverse_watches := rev2)
+      (ext_self_get_all_forward_watches := fwd) (ext_validator_factory_make_validator := xmk)
+      (ext_FilterHeader_to_byte_array := xb) (ext_Validator_validate_block := xv) (ext_diffchange_interval := xd)
+      (ext_validate_retarget := xr) t height ebh prev cur proof false := by
+  unfold ChainTracker.validate_block
+  simp only [Bool.false_eq_true, if_false]
+
+/-- **Removing a block it hands it the *reverse* watches** (forward watches plus the outpoints seen spent): the forward
+    set does not enter. -/
+theorem C13_fn_validate_block_remove_uses_reverse (rev fwd1 fwd2 : List Txid × List OP) :
+    ChainTracker.validate_block (ext_BlockHeader_block_hash := xh) (ext_BlockHeader_target := xt)
+      (ext_BlockHeader_validate_pow := xp) (ext_max_target := xm) (ext_self_get_all_reverse_watches := rev)
+      (ext_self_get_all_forward_watches := fwd1) (ext_validator_factory_make_validator := xmk)
+      (ext_FilterHeader_to_byte_array := xb) (ext_Validator_validate_block := xv) (ext_diffchange_interval := xd)
+      (ext_validate_retarget := xr) t height ebh prev cur proof true =
+    ChainTracker.validate_block (ext_BlockHeader_block_hash := xh) (ext_BlockHeader_target := xt)
+      (ext_BlockHeader_validate_pow := xp) (ext_max_target := xm) (ext_self_get_all_reverse_watches := rev)
+      (ext_self_get_all_forward_watches := fwd2) (ext_validator_factory_make_validator := xmk)
+      (ext_FilterHeader_to_byte_array := xb) (ext_Validator_validate_block := xv) (ext_diffchange_interval := xd)
+      (ext_validate_retarget := xr) t height ebh prev cur proof true := by
+  unfold ChainTracker.validate_block
+  simp only [if_true]
+
+/-- the txid watches never reach the validator -/
+theorem C13_fn_validate_block_ignores_txid_watches (ra rb fa fb : List Txid) (ro fo : List OP) (b : Bool) :
+    ChainTracker.validate_block (ext_BlockHeader_block_hash := xh) (ext_BlockHeader_target := xt)
+      (ext_BlockHeader_validate_pow := xp) (ext_max_target := xm) (ext_self_get_all_reverse_watches := (ra, ro))
+      (ext_self_get_all_forward_watches := (fa, fo)) (ext_validator_factory_make_validator := xmk)
+      (ext_FilterHeader_to_byte_array := xb) (ext_Validator_validate_block := xv) (ext_diffchange_interval := xd)
+      (ext_validate_retarget := xr) t height ebh prev cur proof b =
+    ChainTracker.validate_block (ext_BlockHeader_block_hash := xh) (ext_BlockHeader_target := xt)
+      (ext_BlockHeader_validate_pow := xp) (ext_max_target := xm) (ext_self_get_all_reverse_watches := (rb, ro))
+      (ext_self_get_all_forward_watches := (fb, fo)) (ext_validator_factory_make_validator := xmk)
+      (ext_FilterHeader_to_byte_array := xb) (ext_Validator_validate_block := xv) (ext_diffchange_interval := xd)
+      (ext_validate_retarget := xr) t height ebh prev cur proof b := by
+  unfold ChainTracker.validate_block
+  cases b <;> simp only [Bool.false_eq_true, if_false, if_true]
+end WatchSet
+
+/-! ### the listener slots and the watch sets (area `TrackerWatch`, `translate/fn_targets/TrackerWatch.b6.json`):
+`add_listener`, `add_listener_watches`, `get_all_watches`, `get_all_forward_watches`, `get_all_reverse_watches` -/
+
+section SlotWatches
+/-- what one slot contributes to the two accumulators of `get_all_watches` -/
+def watchStep {Txid OP : Type} [DecidableEq Txid] [DecidableEq OP] (rev : Bool) (acc : List Txid × List OP)
+    (slot : Gen.FnTrackerWatch.ListenSlot Txid OP) : List Txid × List OP :=
+  (slot.txid_watches.foldl Rs.asetInsert acc.1,
+   if rev then slot.seen.foldl Rs.asetInsert (slot.watches.foldl Rs.asetInsert acc.2)
+   else slot.watches.foldl Rs.asetInsert acc.2)
+
+theorem foldlM_pure {σ β : Type} (f : σ → β → Rs.M σ) (g : σ → β → σ) (hf : ∀ s x, f s x = .ok (g s x)) :
+    ∀ (l : List β) (s : σ), List.foldlM f s l = .ok (l.foldl g s) := by
+  intro l
+  induction l with
+  | nil => intro s; rfl
+  | cons x xs ih => intro s; simp only [List.foldlM, hf, Rs.bind_ok, List.foldl]; exact ih _
+
+variable {Key L Txid OP : Type} [DecidableEq Key] [DecidableEq Txid] [DecidableEq OP]
+
+omit [DecidableEq Key] in
+/-- **`get_all_watches`**: the union (insertion-ordered sets) of the slots' txid watches, of their outpoint watches and —
+    only with `include_reverse` — of the outpoints they have seen spent; never fails. -/
+theorem C13_fn_get_all_watches (f : List Txid → List Txid) (g : List OP → List OP)
+    (t : Gen.FnTrackerWatch.ChainTracker Key L Txid OP) (rev : Bool) :
+    t.get_all_watches f g rev =
+      .ok (f ((t.listeners.map (·.2.2)).foldl (watchStep rev) ([], [])).1,
+           g ((t.listeners.map (·.2.2)).foldl (watchStep rev) ([], [])).2) := by
+  unfold Gen.FnTrackerWatch.ChainTracker.get_all_watches
+  dsimp only
+  rw [foldlM_pure _ (fun acc (kv : L × Gen.FnTrackerWatch.ListenSlot Txid OP) => watchStep rev acc kv.2)]
+  · simp only [Rs.bind_ok, Rs.pure_eq, List.foldl_map]
+  · intro s x
+    obtain ⟨a, b⟩ := s
+    obtain ⟨l, slot⟩ := x
+    cases rev <;> rfl
+
+omit [DecidableEq Key] in
+/-- `get_all_forward_watches` = `get_all_watches(false)`, `get_all_reverse_watches` = `get_all_watches(true)` -/
+theorem C13_fn_get_all_forward_reverse (f : List Txid → List Txid) (g : List OP → List OP)
+    (t : Gen.FnTrackerWatch.ChainTracker Key L Txid OP) :
+    t.get_all_forward_watches f g = t.get_all_watches f g false ∧
+    t.get_all_reverse_watches f g = t.get_all_watches f g true := by
+  unfold Gen.FnTrackerWatch.ChainTracker.get_all_forward_watches Gen.FnTrackerWatch.ChainTracker.get_all_reverse_watches
+  rw [C13_fn_get_all_watches, C13_fn_get_all_watches]
+  exact ⟨rfl, rfl⟩
+
+omit [DecidableEq Txid] [DecidableEq OP] in
+/-- **`add_listener`**: the slot of a new listener holds the given txid watches, no outpoint watch and nothing seen; it is
+    stored under the listener's own key (replacing an entry of that key in place) -/
+theorem C13_fn_add_listener (key : L → Key) (t : Gen.FnTrackerWatch.ChainTracker Key L Txid OP) (l : L) (ws : List Txid) :
+    (t.add_listener key l ws).listeners =
+      Rs.omapInsert t.listeners (key l) (l, { txid_watches := ws, watches := [], seen := [] }) := rfl
+
+omit [DecidableEq Key] [DecidableEq Txid] in
+theorem slot_fold (ws : List OP) (slot : Gen.FnTrackerWatch.ListenSlot Txid OP) :
+    List.foldl (fun slot w => { slot with watches := Rs.asetInsert slot.watches w }) slot ws =
+      { slot with watches := ws.foldl Rs.asetInsert slot.watches } := by
+  induction ws generalizing slot with
+  | nil => rfl
+  | cons x xs ih => simp only [List.foldl]; rw [ih]
+
+omit [DecidableEq Txid] in
+/-- **`add_listener_watches`**: panics for an unknown key (the `expect`); otherwise the given outpoints are added to that
+    slot's `watches` (set union), the listener, its txid watches and `seen` stay, no other entry changes -/
+theorem C13_fn_add_listener_watches (t : Gen.FnTrackerWatch.ChainTracker Key L Txid OP) (k : Key) (ws : List OP) :
+    t.add_listener_watches k ws =
+      match Rs.omapGet t.listeners k with
+      | none => .error .panic
+      | some (l, slot) =>
+        .ok { t with listeners := Rs.omapInsert t.listeners k (l, { slot with watches := ws.foldl Rs.asetInsert slot.watches }) } := by
+  unfold Gen.FnTrackerWatch.ChainTracker.add_listener_watches
+  cases h : Rs.omapGet t.listeners k with
+  | none => rfl
+  | some e =>
+    obtain ⟨l, slot⟩ := e
+    simp only [Rs.unwrap, Rs.bind_ok, Rs.pure_eq, slot_fold]
+
+omit [DecidableEq Key] [DecidableEq Txid] in
+theorem mem_asetInsert (l : List OP) (x y : OP) : y ∈ Rs.asetInsert l x ↔ y ∈ l ∨ y = x := by
+  unfold Rs.asetInsert
+  split
+  · rename_i h
+    constructor
+    · intro hy; exact Or.inl hy
+    · intro hy
+      cases hy with
+      | inl h1 => exact h1
+      | inr h2 => subst h2; simpa using h
+  · simp
+
+omit [DecidableEq Key] [DecidableEq Txid] in
+theorem mem_foldl_aset (ws l : List OP) (y : OP) : y ∈ ws.foldl Rs.asetInsert l ↔ y ∈ l ∨ y ∈ ws := by
+  induction ws generalizing l with
+  | nil => simp
+  | cons x xs ih => simp only [List.foldl, ih, mem_asetInsert, List.mem_cons]; grind
+
+omit [DecidableEq Key] in
+/-- **the reverse watches are a superset of the forward watches** (before the set → vector conversion): every outpoint
+    `get_all_watches(false)` accumulates is accumulated by `get_all_watches(true)` -/
+theorem C13_fn_forward_subset_reverse (slots : List (Gen.FnTrackerWatch.ListenSlot Txid OP)) (a b : List Txid × List OP)
+    (hab : ∀ y, y ∈ a.2 → y ∈ b.2) :
+    ∀ y, y ∈ (slots.foldl (watchStep false) a).2 → y ∈ (slots.foldl (watchStep true) b).2 := by
+  induction slots generalizing a b with
+  | nil => exact hab
+  | cons s ss ih =>
+    simp only [List.foldl]
+    apply ih
+    intro y hy
+    simp only [watchStep, Bool.false_eq_true, if_false, if_true, mem_foldl_aset] at hy ⊢
+    grind
+
+end SlotWatches
 
 end VlsModel.Props.C13Fn
